@@ -222,6 +222,44 @@ Proof. exists (VDec 1 6), TString. differ. Qed.
 Theorem c17_empty_string_refuted : forall fx, exists v T, bind_formatted fx v T <> bind_prefix v T.
 Proof. intros fx. exists (VStr []), TString. destruct fx; differ. Qed.
 
+(* A default written in the placeholder is for keys that are absent (nil, empty map, empty list: Placeholder.absent).
+   A key that is PRESENT - the empty string included - is bound through value:"${key:d}" exactly as through
+   value:"${key}": the default plays no part, for every field type, with or without required=false.  (For the empty
+   string that common result is the one of class KF-C17h: TagVal is empty, i.e. "required" or nothing bound - NOT d.) *)
+Theorem c17_default_only_for_absent : forall fx cfg key d req T text,
+  key_ok key = true -> brace_free d = true -> absent (cfg key) = false ->
+  format_cfg fx (cfg key) = Ok text -> inert text = true ->
+  bind_tag_value fx cfg req (ph (key_dflt key (Some d))) T = bind_tag_value fx cfg req (ph key) T /\
+  bind_tag_value fx cfg req (ph key) T = Some (bind_value_r req text T).
+Proof. exact default_ignored_when_present. Qed.
+
+(* k: "" with value:"${k:dflt}" and prop:"k:dflt" into a string field: not "dflt" - the required error of KF-C17h, and
+   with required=false the field keeps "" as the prefix route binds it; k: "x" gives "x" *)
+Example c17_default_only_for_absent_ex :
+  let cfg := cfg_of [([107]%N, VStr []); ([106]%N, VStr [120]%N)] in
+  let tag := ph (key_dflt [107]%N (Some [100;102;108;116]%N)) in
+  absent (cfg [107]%N) = false /\
+  bind_tag_value false cfg true tag TString = Some Err /\
+  bind_tag_value false cfg false tag TString = Some (Ok (FStr [])) /\
+  bind_prop false cfg false ([107;58;100;102;108;116]%N ++ lit_req_false) TString = Some (Ok (FStr [])) /\
+  bind_prefix (cfg [107]%N) TString = Ok (FStr []) /\
+  bind_tag_value false cfg true (ph (key_dflt [106]%N (Some [100;102;108;116]%N))) TString = Some (Ok (FStr [120]%N)) /\
+  bind_tag_value false cfg true (ph (key_dflt [113]%N (Some [100;102;108;116]%N))) TString = Some (Ok (FStr [100;102;108;116]%N)).
+Proof. vm_compute. repeat split; reflexivity. Qed.
+
+(* the tag argument mapper=<tag key> of a property selects the struct tag that names the fields for THAT property;
+   without it the yaml tag does *)
+Example c17_mapper_selects_tag_ex :
+  let g := GStruct [([77;97;120;67;111;110;110]%N,
+                     [(lit_yaml, [109;97;120;95;99;111;110;110]%N); ([106;115;111;110]%N, [109;97;120;67;111;110;110;44;111;109;105;116;101;109;112;116;121]%N)],
+                     GInt 64)] in
+  let v := VMap [([109;97;120;95;99;111;110;110]%N, VInt 64)] in
+  bind_prefix v (bound_type None g) = Ok (FStruct [([109;97;120;95;99;111;110;110]%N, FInt 64)]) /\
+  bind_prefix v (bound_type (Some [106;115;111;110]%N) g) = Ok (FStruct [([109;97;120;67;111;110;110]%N, FInt 0)]) /\
+  bind_prefix (VMap [([109;97;120;99;111;110;110]%N, VInt 3)]) (bound_type (Some [106;115;111;110]%N) g)
+    = Ok (FStruct [([109;97;120;67;111;110;110]%N, FInt 3)]).
+Proof. vm_compute. repeat split; reflexivity. Qed.
+
 (* KF-C17i  "${nokey:7}x" under key k into a string field: substituted again on the value path ("7x") *)
 Theorem c17_placeholder_in_value_refuted : forall fx, exists cfg key T,
   key_ok key = true /\ bind_key_value fx cfg key T <> Some (bind_prefix (cfg key) T).
